@@ -404,6 +404,9 @@ func c08E1(r *eng.Run) {
 	for _, x := range relatedNameDocs() {
 		hard = append(hard, []byte(x))
 	}
+	for _, x := range shortStringPairDocs() {
+		hard = append(hard, []byte(x))
+	}
 	n += runFamily(r, "hard-numbers-strings-and-related-names", sp.entry, hard, checkStyles)
 	r.Add("states", res.st.States)
 	r.Add("transitions", (res.st.Transitions+res.pumped+n)*len(activeStyles))
